@@ -137,3 +137,105 @@ func condTests(c ssa.Value, v ssa.Value, depth int) bool {
 	}
 	return false
 }
+
+// LoopCaptures: a closure created inside a loop captures a variable cell that lives OUTSIDE the loop and is
+// re-assigned inside it. Unless the closure runs before the next assignment (called at once, or handed to a callee
+// that runs it synchronously), every closure sees the value of the last iteration (a deferred cache insertion that
+// inserts the last output only; a goroutine per subscriber that all deliver to the last subscriber).
+type LoopCapture struct {
+	Fn      *ssa.Function
+	Closure *ssa.MakeClosure
+	Var     *ssa.Alloc
+	Use     ssa.Instruction // how the closure is consumed (go, defer, call argument, store)
+}
+
+func LoopCaptures(p *load.Program, inPkg func(string) bool) []LoopCapture {
+	var out []LoopCapture
+	for _, fn := range p.AllFns {
+		if fn.Pkg == nil || (inPkg != nil && !inPkg(fn.Pkg.Pkg.Path())) {
+			continue
+		}
+		back := BackEdges(fn)
+		if len(back) == 0 {
+			continue
+		}
+		for _, b := range fn.Blocks {
+			for _, ins := range b.Instrs {
+				mc, ok := ins.(*ssa.MakeClosure)
+				if !ok {
+					continue
+				}
+				// the innermost loops that contain the closure: headers h with a back edge t->h, h dominates b, b reaches t
+				for e := range back {
+					h := e.To()
+					if !h.Dominates(b) {
+						continue
+					}
+					if !(b == e.From || ReachFrom([]*ssa.BasicBlock{b}, nil)[e.From]) {
+						continue
+					}
+					inLoop := func(x *ssa.BasicBlock) bool {
+						return h.Dominates(x) && (x == e.From || ReachFrom([]*ssa.BasicBlock{x}, nil)[e.From])
+					}
+					for _, bnd := range mc.Bindings {
+						a, ok := bnd.(*ssa.Alloc)
+						if !ok || inLoop(a.Block()) {
+							continue
+						}
+						stored := false
+						for _, s := range storesTo(a) {
+							if inLoop(s.Block()) {
+								stored = true
+							}
+						}
+						if !stored {
+							continue
+						}
+						use := closureEscape(mc)
+						if use == nil {
+							continue
+						}
+						out = append(out, LoopCapture{fn, mc, a, use})
+					}
+				}
+			}
+		}
+	}
+	// de-duplicate (several back edges of one loop)
+	seen := map[string]bool{}
+	var uniqOut []LoopCapture
+	for _, l := range out {
+		k := load.QualName(l.Fn) + "|" + l.Closure.Name() + "|" + l.Var.Name()
+		if !seen[k] {
+			seen[k] = true
+			uniqOut = append(uniqOut, l)
+		}
+	}
+	sort.Slice(uniqOut, func(i, j int) bool {
+		return load.QualName(uniqOut[i].Fn)+uniqOut[i].Closure.Name() < load.QualName(uniqOut[j].Fn)+uniqOut[j].Closure.Name()
+	})
+	return uniqOut
+}
+
+// closureEscape: nil if the closure is only called directly (runs at once); else the instruction that lets it outlive
+// the iteration (go, defer, argument of a call, store, return).
+func closureEscape(mc *ssa.MakeClosure) ssa.Instruction {
+	refs := mc.Referrers()
+	if refs == nil {
+		return nil
+	}
+	for _, r := range *refs {
+		switch x := r.(type) {
+		case *ssa.Call:
+			if x.Call.Value == ssa.Value(mc) {
+				continue // called at once
+			}
+			return x
+		case *ssa.DebugRef:
+			continue
+		default:
+			return r
+		}
+	}
+	return nil
+}
